@@ -195,7 +195,11 @@ def run_describe(case):
     r = {'id': case.get('id')}
     t0 = time.time()
     try:
-        S = sdl_target(case['sdl'])
+        if case.get('ddl_in'):
+            # the schema held was built by a DDL script in a session whose current module is `default`
+            S, _ = replay_ddl_text(case['ddl_in'], {None: 'default'})
+        else:
+            S = sdl_target(case['sdl'])
     except Exception as e:  # noqa
         r['status'] = 'invalid-schema'
         r['err'] = errinfo(e)
